@@ -96,7 +96,8 @@ class Encoder(object):
         if k == "fw":
             # op[2]: parameter text with its own separator ("", " S1", "S1", "  S1"); op[3]: indented
             par = op[2] if (not op[2] or op[2][0] == " " or (len(op) > 3 and op[3] == "compact")) else " " + op[2]
-            return [(" " if len(op) > 3 and op[3] == "indent" else "") + op[1] + par]
+            text = (" " if len(op) > 3 and op[3] == "indent" else "") + op[1] + par
+            return [text.lower() if len(op) > 3 and op[3] == "lower" else text]
         if k == "g92e":
             self.e = op[1]
             return ["G92 E" + fmt(op[1] / self.unit, self.nd)]
@@ -199,7 +200,7 @@ def gen_path(r, regions, opts):
         elif k < 0.62:
             if opts.get("fw"):
                 ops.append(("fw", "G11" if retracted else "G10", r.choice(["", "", "S1", "  S1"]),
-                            r.choice(["", "", "", "indent", "compact"])))
+                            r.choice(["", "", "", "indent", "compact", "lower"])))
             else:
                 ops.append(("eonly", a if retracted else -a))
             retracted = not retracted
@@ -230,7 +231,9 @@ def gen_path(r, regions, opts):
             enabled = not enabled
             if r.random() < (0.85 if opts.get("at_junk") else 0.4):
                 ops.append(("at", r.choice(["ExcludeRegion", "ExcludeRegion", "Other", "Region"]),
-                            r.choice(["bogus", "", "", " ", "offf", "turn off", "not on", "x off", "go on", "stop"])))
+                            r.choice(["bogus", "", "", " ", "offf", "turn off", "not on", "x off", "go on", "stop",
+                                      "OFF", "ON", "Off", "On", "DISABLE", "Enable", "Skip-OFF", "Skip-ON",
+                                      "skip-off", "skip-on"])))
         elif k < 0.96 and opts.get("arcs") and (absmode or opts.get("rel_arcs")) \
                 and (mm or opts.get("inch_arcs")):
             # arc about a centre; keep it on a grid so that it is exact
@@ -290,7 +293,7 @@ def gen_episode_path(r, regions, opts):
         if k < 0.25:
             if opts.get("fw"):
                 ops.append(("fw", "G11" if st["retracted"] else "G10", r.choice(["", "", "S1", "  S1"]),
-                            r.choice(["", "", "", "indent", "compact"])))
+                            r.choice(["", "", "", "indent", "compact", "lower"])))
             else:
                 ops.append(("eonly", a if st["retracted"] else -a))
             st["retracted"] = not st["retracted"]
@@ -440,6 +443,10 @@ def random_cfg(r, regions=None):
         # patterns that accept an empty parameter text: the bare @-command triggers the action
         cfg["at"] = [("ExcludeRegion", "^\\s*$", "disable_exclusion"), ("ExcludeRegion", "on", "enable_exclusion"),
                      ("Other", "", "disable_exclusion")]
+    elif k < 0.32:
+        # case matters: the configured patterns contain upper-case letters
+        cfg["at"] = [("ExcludeRegion", "^Skip-OFF$", "disable_exclusion"),
+                     ("ExcludeRegion", "^Skip-ON$", "enable_exclusion")]
     return cfg
 
 
